@@ -11,7 +11,7 @@ def is_light(e):
     """No recursive-function application and no quantifier (cheap to decide)."""
     k = e.get_id()
     if k in _LIGHT:
-        return _LIGHT[k]
+        return _LIGHT[k][1]
     stack = [e]
     seen = set()
     ok = True
@@ -29,7 +29,7 @@ def is_light(e):
                 ok = False
                 break
             stack.extend(x.children())
-    _LIGHT[k] = ok
+    _LIGHT[k] = (e, ok)      # keeping the expression alive pins its id
     return ok
 
 
